@@ -64,12 +64,12 @@ func (m *MonReach) AfterStep(nw *Network) {
 			}
 			ds[r] = true
 			nw.Res.count("reach_round_decisions", 1)
-			nw.Res.max("reach_max_voting_rounds_at_decision", int64(lastRound-r))
+			nw.Res.max("reach_max_rounds_behind_last_round_when_first_seen_decided", int64(lastRound-r))
 			if lastRound-r >= 3 {
-				nw.Res.count("reach_decisions_needing_3plus_rounds", 1)
+				nw.Res.count("reach_rounds_first_seen_decided_3plus_rounds_behind_last_round", 1)
 			}
 			if lastRound-r >= 4 {
-				nw.Res.count("reach_decisions_spanning_a_coin_round", 1)
+				nw.Res.count("reach_rounds_first_seen_decided_4plus_rounds_behind_last_round", 1)
 			}
 			// did another node hold a witness of r that this node lacks?
 			mine := map[string]bool{}
